@@ -5,7 +5,7 @@ from suites.common import reflect, exc_result, rstr, LOWER, DIGITS
 
 SHORTS = ["f", "rhel", "fedora", "my-product", "a-b-c", "a1-2b", "x-updates", "rhel-ha", "a-b", "z9", "spacewalk-x"]
 VERSIONS_NUM = ["1", "23", "1.0", "7.9", "10.2.3", "0", "20240101"]
-VERSIONS_FREE = ["rawhide", "Rawhide", "xga", "eus", "beta", "X1", "testing", "v.1", "Xga", "updates", "b", "ga",
+VERSIONS_FREE = ["rawhide", "Rawhide", "xga", "eus", "beta", "X1", "testing", "v.1", "Xga", "updates", "b", "ga", "EUS", "GA", "Fast", "Updates", "E4S",
                  "fast", "Beta_2", "r.a.w", "x1y", "Aeus"]
 BAD_SHORTS = ["", "F", "1a", "a--b", "-a", "a-", "a_b", "a@b", "a.b"]
 BAD_VERSIONS = ["", "1.", "1..2", ".1", "1a", "1-2", "01x"]
